@@ -145,6 +145,10 @@ fn make_others(w: &World, n: u32, slots: &mut Vec<Uuid>) {
 		let s = a.init_send(default_args(5 * G)).unwrap();
 		a.lock(&s).unwrap();
 		slots.push(s.id);
+		// a reward candidate handed out to a miner, block not (yet) mined: an Unconfirmed output
+		// that belongs to no log entry at all
+		let bf = crate::libwallet::BlockFees { fees: 0, key_id: None, height: w.node.height() + 1 };
+		a.with(|x| crate::libwallet::api_impl::foreign::build_coinbase(x, None, &bf, false)).unwrap();
 	}
 	if n >= 2 {
 		// pending received by A (from B)
